@@ -74,6 +74,9 @@ def run(R):
                 if s.kind == 'unpack' and s.extra == 0 and 'parse_tl_num(data)' in ast.unparse(s.expr):
                     # the data it is parsed from must be the fragment
                     continue
+                if s.kind == 'expr' and isinstance(s.expr, ast.Subscript) and isinstance(s.expr.slice, ast.Constant) and s.expr.slice.value == 0 \
+                        and ast.unparse(s.expr.value).endswith('parse_tl_num(data)'):
+                    continue        # `parse_tl_num(data)[0]`: the same first element
                 probs.append((f'the dispatch type is {s.text()}', t.ast))
         # one shared dispatch: exactly one non-Nack parse_interest and one parse_data call
         cnt = {}
@@ -135,6 +138,10 @@ def run(R):
                 lab = truthy_label(whole.test, ast.unparse(s.expr))
                 if (lab is True and whole.body is s.expr) or (lab is False and whole.orelse is s.expr):
                     continue
+            # the binding is made only where the element is known to be present: every path to it takes a `<field> is not None` edge
+            fe = nonnull_edges(rx, ast.unparse(s.expr))
+            if fe and s.node.id not in rx.cfg.reachable(removed_edges=set(fe), follow_exc=False):
+                continue
             others = [n for n in rx.cfg.nodes if n is not s.node and any(nm == var for nm, _ in rx.cfg.defs_of(n))]
             # from the nullable definition, can T be reached with the value still possibly None?
             removed = {e for e in nn_edges if e[0] != T.id}
@@ -214,6 +221,17 @@ def run(R):
             R.fail('C10.PRV.2', inst, on.qual, cs[0][1] if cs else 'def _on_nack', 'the received reason is not forwarded to the pending Interests', site(on, on.f.node))
         rxx = ctx(R, app + '._receive')
         cs = calls_in_ctx(rxx, attr='_on_nack')
+        # the reason decides Nack-ness by being present, not by being truthy: NackReason.NONE is 0
+        if cs and len(cs[0][1].args) > 1 and isinstance(cs[0][1].args[1], ast.Name):
+            rv = cs[0][1].args[1].id
+            inst = f'{rxx.qual} :: Nack-ness is `{rv} is not None`'
+            truthy = [t for t in rxx.cfg.nodes if t.kind == 'test' and truthy_label(t.ast, rv) is not None and not isinstance(t.ast, ast.Compare)]
+            nonecmp = [t for t in rxx.cfg.nodes if t.kind == 'test' and truthy_label(t.ast, rv) is not None and isinstance(t.ast, ast.Compare)]
+            if truthy:
+                R.fail('C10.MPT.1', inst, rxx.qual, truthy[0].ast, f'Nack-ness is decided by the truthiness of `{rv}`: a Nack whose reason is NackReason.NONE (0, also what '
+                       'a Nack header without reason is mapped to) is falsy and is dispatched as a fresh Interest instead of failing the pending one', site(rxx, truthy[0].ast))
+            elif nonecmp:
+                R.ok('C10.MPT.1', inst, site(rxx, nonecmp[0].ast))
         if app.endswith('app.NDNApp'):
             inst = f'{rxx.qual} :: reason passed to _on_nack'
             good = False
